@@ -16,7 +16,7 @@ LEVEL_TEXT = (
     'necessary conditions; termination and schedule independence as theorems are NOT decided.')
 
 FLOORS = {'C05-R1': 6, 'C05-R2': 5, 'C05-R3': 1, 'C05-R4': 2, 'C05-R5': 2, 'C05-R6': 4,
-          'C05-R7': 4, 'C05-R8': 3, 'C05-R9': 1}
+          'C05-R7': 4, 'C05-R8': 3, 'C05-R9': 1, 'C01-R7': 5, 'C01-R10': 4}
 
 BLOCKING = ('thread::sleep', 'JoinHandle::join', 'Receiver::recv', 'Receiver::recv_timeout',
             'Thread::park', 'thread::park', 'Condvar::wait', 'Condvar::wait_for', 'Condvar::wait_until',
@@ -446,3 +446,12 @@ def run(ctx):
                       'worker queue is published only when non-empty')
     with ctx.rule('C05-R9', 'split_and_push'):
         r9_empty_batch_is_shutdown_signal(ctx, F)
+    # "no pending unit of work is dropped": the frontier-conservation rules of C01
+    import c01
+    import c19
+    ctx.doc('C01-R7', 'job market discards work only when closed; split pieces and pushed batches are stored; '
+                      'pop returns a stored batch or empty')
+    ctx.doc('C01-R10', 'worker-local job queues are (re)assigned only when empty')
+    with ctx.rule('C01-R7', 'job_market'):
+        c01.r7_market(ctx, F)
+    c19.r5_worker_queue(ctx, F, rule='C01-R10', with_join=False)
